@@ -8,7 +8,7 @@ use tensor_compress::format::{CompressedEntry, CompressedScalar, CompressedSnaps
 use tensor_compress::{CompressionConfig, RleEncoded, TensorMode};
 use tensor_store::{
     snapshot, ColumnValue, CompressedEmbedding, EntityId, ScalarValue, SlabRouter, SlabRouterConfig, SnapshotFormatError,
-    SnapshotHeader, SnapshotVersion, SparseVector, TensorData, TensorStore, TensorValue, V3Snapshot,
+    SnapshotHeader, SnapshotVersion, SparseVector, TensorData, TensorStore, TensorValue, V3Snapshot, WalConfig,
 };
 
 // ------------------------------------------------------------------ encodings shared with the driver
@@ -3497,6 +3497,39 @@ fn stream_store_loops(rep: &mut Report, m: &mut Model, root: &Rng, thorough: boo
                 }
             }
         }
+        // --- the same restore into targets BUILT WITH A BLOOM FILTER (every constructor that takes one; empty, or
+        // holding other keys of which some were deleted again, or cleared), read back through the TensorStore API
+        // (get / exists ask the filter first) and followed by a further history that runs on a store without a
+        // filter as well; then the loaders that build a filter from scan("") on the file form
+        {
+            let desc = json!({"ops": trace.iter().take(80).collect::<Vec<_>>()});
+            let more = if case_no == 0 { 0 } else { 2 + r.below(if thorough { 14 } else { 8 }) as usize };
+            let f1 = Flt::BLOOMS[case_no % 5];
+            let f2 = Flt::BLOOMS[(case_no + 2) % 5];
+            live = restore_into(rep, m, &mut seen, sc, &mut r, live, "store_loops.filter", &store, f1, &[], &[], false, more, &desc);
+            let mut junk = TensorData::new();
+            junk.set("old", TensorValue::Scalar(ScalarValue::Int(1)));
+            let mut pre: Vec<(String, TensorData)> = ["user:0", "emb:0", "stale:key"].iter().map(|k| ((*k).to_string(), junk.clone())).collect();
+            for i in 0..r.below(8) as usize {
+                pre.push(gen_loop_entry(&mut r, rep, i));
+            }
+            let pre_del: Vec<String> = pre.iter().filter(|_| r.chance(1, 4)).map(|p| p.0.clone()).collect();
+            let clear_first = r.chance(1, 8);
+            live = restore_into(rep, m, &mut seen, sc, &mut r, live, "store_loops.filter", &store, f2, &pre, &pre_del, clear_first, more, &desc);
+            if thorough || case_no % 4 == 1 {
+                live = restore_into(rep, m, &mut seen, sc, &mut r, live, "store_loops.filter", &store, Flt::Plain, &pre, &pre_del, false, more, &desc);
+            }
+            let p = sc.fresh("loops.filter.v3");
+            match store.save_snapshot(&p) {
+                Err(e) => seen.violation(rep, "tensor_store.save_snapshot/save_or_load_failed", &e.to_string(), input("save_snapshot")),
+                Ok(()) => {
+                    let loaders: Vec<Loader> = if thorough { vec![Loader::Bloom, Loader::BloomTiny, Loader::RecoverBloom, Loader::Recover] } else { vec![Loader::BLOOMS[case_no % 3]] };
+                    for loader in loaders {
+                        live = load_into(rep, m, &mut seen, sc, &mut r, live, "store_loops.filter", &store, &p, loader, more, &desc);
+                    }
+                }
+            }
+        }
         // --- the quantising format (no tensor-train configured): every key-addressed entry
         for delta in [true, false] {
             let p = sc.fresh("loops.q");
@@ -3563,6 +3596,505 @@ fn stream_store_loops(rep: &mut Report, m: &mut Model, root: &Rng, thorough: boo
     }
 }
 
+// ------------------------------------------------------------------ load paths INTO A STORE BUILT WITH A BLOOM FILTER
+//
+// TensorStore::get / exists ask the store's Bloom filter before the router; scan does not. A load path that
+// fills the router without telling the filter leaves a store in which scan lists the saved keys while get /
+// exists deny them (restore_from_bytes before cb3c5db0). Everything here reads THROUGH THE TensorStore API.
+
+/// kind of the class `tensor_store.restore_from_bytes/restored_key_denied_by_bloom_filter` (fixed cb3c5db0)
+const BLOOM_DENIED: &str = "restored_key_denied_by_bloom_filter";
+const BLOOM_DENIED_LOAD: &str = "loaded_key_denied_by_bloom_filter";
+
+#[derive(Clone, Copy, PartialEq, Debug)]
+enum Flt {
+    Plain,
+    Small,
+    /// 64 bits, 16 hash functions: saturated after a few keys (false positives are the rule)
+    Tiny,
+    Default,
+    Instr,
+    Durable,
+}
+
+impl Flt {
+    const BLOOMS: [Flt; 5] = [Flt::Small, Flt::Tiny, Flt::Default, Flt::Instr, Flt::Durable];
+    fn build(self, sc: &mut Scratch) -> TensorStore {
+        match self {
+            Flt::Plain => TensorStore::new(),
+            Flt::Small => TensorStore::with_bloom_filter(64, 0.01),
+            Flt::Tiny => TensorStore::with_bloom_filter(1, 0.5),
+            Flt::Default => TensorStore::with_default_bloom_filter(),
+            Flt::Instr => TensorStore::with_bloom_and_instrumentation(64, 0.01, 1),
+            Flt::Durable => TensorStore::open_durable_with_bloom(sc.fresh("target.wal"), WalConfig::default(), 64, 0.01).expect("open_durable_with_bloom"),
+        }
+    }
+    fn name(self) -> &'static str {
+        match self {
+            Flt::Plain => "new",
+            Flt::Small => "with_bloom_filter(64,0.01)",
+            Flt::Tiny => "with_bloom_filter(1,0.5)",
+            Flt::Default => "with_default_bloom_filter",
+            Flt::Instr => "with_bloom_and_instrumentation(64,0.01,1)",
+            Flt::Durable => "open_durable_with_bloom(64,0.01)",
+        }
+    }
+}
+
+#[derive(Clone, Copy, PartialEq, Debug)]
+enum Loader {
+    Plain,
+    Bloom,
+    BloomTiny,
+    Recover,
+    RecoverBloom,
+}
+
+impl Loader {
+    const BLOOMS: [Loader; 3] = [Loader::Bloom, Loader::BloomTiny, Loader::RecoverBloom];
+    fn load(self, p: &Path, sc: &mut Scratch) -> Result<TensorStore, String> {
+        match self {
+            Loader::Plain => TensorStore::load_snapshot(p).map_err(|e| e.to_string()),
+            Loader::Bloom => TensorStore::load_snapshot_with_bloom_filter(p, 64, 0.01).map_err(|e| e.to_string()),
+            Loader::BloomTiny => TensorStore::load_snapshot_with_bloom_filter(p, 1, 0.5).map_err(|e| e.to_string()),
+            Loader::Recover => TensorStore::recover(sc.fresh("recover.wal"), &WalConfig::default(), Some(p)).map_err(|e| e.to_string()),
+            Loader::RecoverBloom => TensorStore::recover_with_bloom(sc.fresh("recover.wal"), &WalConfig::default(), Some(p), 64, 0.01).map_err(|e| e.to_string()),
+        }
+    }
+    fn site(self) -> &'static str {
+        match self {
+            Loader::Plain => "tensor_store.load_snapshot",
+            Loader::Bloom | Loader::BloomTiny => "tensor_store.load_snapshot_with_bloom_filter",
+            Loader::Recover => "tensor_store.recover",
+            Loader::RecoverBloom => "tensor_store.recover_with_bloom",
+        }
+    }
+    fn name(self) -> &'static str {
+        match self {
+            Loader::Plain => "load_snapshot",
+            Loader::Bloom => "load_snapshot_with_bloom_filter(64,0.01)",
+            Loader::BloomTiny => "load_snapshot_with_bloom_filter(1,0.5)",
+            Loader::Recover => "recover(snapshot, new wal)",
+            Loader::RecoverBloom => "recover_with_bloom(snapshot, new wal, 64, 0.01)",
+        }
+    }
+    fn bloom(self) -> bool {
+        !matches!(self, Loader::Plain | Loader::Recover)
+    }
+}
+
+fn api_get(st: &TensorStore, k: &str) -> String {
+    st.get(k).map_or("notfound".to_string(), |d| canon_data(&enc_data_m(&d)))
+}
+
+/// `listed`, `exists`, `get` of every listed key and every probe, through the TensorStore API; the format of the driver's `ts_kv`
+fn store_kv(st: &TensorStore, probes: &[String]) -> String {
+    let listed: std::collections::BTreeSet<String> = st.scan("").into_iter().collect();
+    let mut keys = listed.clone();
+    keys.extend(probes.iter().cloned());
+    let v: Vec<String> = keys.iter().map(|k| format!("{}:{}{}~{}", hexs(k), u8::from(listed.contains(k)), u8::from(st.exists(k)), api_get(st, k))).collect();
+    canon_entries(&join_or("&", &v), true)
+}
+
+/// key -> canonical value of everything `scan("")` lists and `get` finds in the saved store
+fn saved_map(src: &TensorStore) -> BTreeMap<String, String> {
+    src.scan("").into_iter().filter_map(|k| src.router().get(&k).ok().map(|d| (k, canon_data(&enc_data_m(&d))))).collect()
+}
+
+#[derive(Clone, Copy, PartialEq)]
+enum Canon {
+    Raw,
+    Data,
+    Entries,
+}
+
+/// the model side of a `TStore` history: one driver line, compared with the implementation's answer while the
+/// model still follows; the history itself goes on on the real stores whatever the model says
+struct TsRun {
+    live: bool,
+    trace: Vec<String>,
+    stream: String,
+}
+
+impl TsRun {
+    fn ask(&mut self, rep: &mut Report, m: &mut Model, line: String, imp: &str, canon: Canon) {
+        self.trace.push(line.clone());
+        if self.live {
+            let ans = m.ask(&line);
+            let ans = match canon {
+                Canon::Raw => ans,
+                Canon::Data => canon_data(&ans),
+                Canon::Entries => canon_entries(&ans, true),
+            };
+            let t = &self.trace;
+            self.live &= rep.compare(&self.stream, || json!({"ops": t.iter().rev().take(60).rev().map(|l| l.chars().take(300).collect::<String>()).collect::<Vec<_>>()}), imp, &ans);
+        }
+    }
+    fn tail(&self) -> Vec<String> {
+        self.trace.iter().rev().take(40).rev().map(|l| l.chars().take(200).collect::<String>()).collect()
+    }
+}
+
+/// Oracle on the real store only. `st` was filled by a load path from a store whose key-addressed content
+/// is `saved`: through the TensorStore API every saved key must read like in the saved store (`get` the same
+/// value, `exists` true), scan must list exactly the saved keys, and none of the `earlier` keys (held by the
+/// target before the load) may be readable. A saved key that scan lists and the ROUTER holds while get /
+/// exists through the store deny it is the Bloom-filter defect (`site/denied`); anything else is a
+/// different class.
+#[allow(clippy::too_many_arguments)]
+fn loaded_store_oracle(rep: &mut Report, seen: &mut Seen, site: &str, denied: &str, st: &TensorStore, saved: &BTreeMap<String, String>, earlier: &[String], input: &dyn Fn() -> J) -> bool {
+    let mut clean = true;
+    for (k, want) in saved {
+        let g = st.get(k);
+        let e = st.exists(k);
+        if g.is_err() || !e {
+            clean = false;
+            let below_get = st.router().get(k).is_ok();
+            let below_exists = st.router().exists(k);
+            let listed = st.scan("").contains(k);
+            if st.has_bloom_filter() && below_get && below_exists && listed {
+                seen.violation(rep, &format!("{site}/{denied}"), "scan lists the key and the router holds it, but get / exists through the store deny it: the store's Bloom filter was never told about the key", json!({"case": input(), "key": k, "store.get": if g.is_ok() { "ok" } else { "NotFound" }, "store.exists": e, "router.get": "ok", "router.exists": true, "scan_lists_it": true}));
+            } else {
+                seen.violation(rep, &format!("{site}/key_content_not_restored"), "a saved key is not readable through the store after the load", json!({"case": input(), "key": k, "store.get_ok": g.is_ok(), "store.exists": e, "router.get_ok": below_get, "router.exists": below_exists, "scan_lists_it": listed, "bloom_filter": st.has_bloom_filter()}));
+            }
+        } else {
+            let got = g.map_or(String::new(), |d| canon_data(&enc_data_m(&d)));
+            if &got != want {
+                clean = false;
+                seen.violation(rep, &format!("{site}/key_content_not_restored"), "get through the store returns another value than the saved store held", json!({"case": input(), "key": k, "saved": want.chars().take(400).collect::<String>(), "loaded": got.chars().take(400).collect::<String>()}));
+            }
+        }
+    }
+    for k in earlier {
+        if !saved.contains_key(k) && (st.get(k).is_ok() || st.exists(k)) {
+            clean = false;
+            seen.violation(rep, &format!("{site}/earlier_key_survives"), "a key the target held before the load (and the saved store does not hold) is still readable", json!({"case": input(), "key": k}));
+        }
+    }
+    let mut listed = st.scan("");
+    listed.sort();
+    if listed != saved.keys().cloned().collect::<Vec<_>>() {
+        clean = false;
+        seen.violation(rep, &format!("{site}/key_set_not_restored"), "scan of the loaded store does not list exactly the saved keys", json!({"case": input(), "saved": saved.keys().take(40).collect::<Vec<_>>(), "listed": listed.iter().take(40).collect::<Vec<_>>()}));
+    }
+    clean
+}
+
+/// the theorem filter_store_equals_plain_store as an oracle on the real stores: the same history on a store
+/// without a filter answers every read alike
+fn twin_oracle(rep: &mut Report, seen: &mut Seen, site: &str, target: &TensorStore, twin: &TensorStore, pool: &[String], input: &dyn Fn() -> J) {
+    let a = store_kv(target, pool);
+    let b = store_kv(twin, pool);
+    if a != b {
+        seen.violation(rep, &format!("{site}/reads_differ_from_store_without_filter"), "scan / get / exists of the store differ from those of a store without a Bloom filter that went through the same history", json!({"case": input(), "store": a.chars().take(1200).collect::<String>(), "without_filter": b.chars().take(1200).collect::<String>()}));
+    }
+}
+
+/// further history on a loaded / restored store: put / delete / get / exists / clear / restore_from_bytes
+/// again, each on the target, on its twin without a filter and (while it follows) on the model
+#[allow(clippy::too_many_arguments)]
+fn ts_history(rep: &mut Report, m: &mut Model, seen: &mut Seen, r: &mut Rng, run: &mut TsRun, site: &str, target: &TensorStore, twin: &TensorStore, again: Option<(&[u8], &BTreeMap<String, String>)>, pool: &mut Vec<String>, n: usize, desc: &J) {
+    for i in 0..n {
+        let roll = r.below(12);
+        let key = if r.chance(2, 3) && !pool.is_empty() { r.pick(pool).clone() } else { gen_loop_entry(r, rep, i).0 };
+        if !pool.contains(&key) {
+            pool.push(key.clone());
+        }
+        match roll {
+            0..=3 => {
+                let (_, d) = gen_loop_entry(r, rep, i);
+                let _ = target.put(&key, d.clone());
+                let _ = twin.put(&key, d.clone());
+                rep.hit("filter.op.put");
+                run.ask(rep, m, format!("ts_put {} {} 0", hexs(&key), enc_data_m(&d)), "ok", Canon::Raw);
+            }
+            4 | 5 => {
+                let a = target.delete(&key).is_ok();
+                let b = twin.delete(&key).is_ok();
+                rep.hit(if a { "filter.op.delete.ok" } else { "filter.op.delete.notfound" });
+                if a != b {
+                    let tail = run.tail();
+                    seen.violation(rep, &format!("{site}/reads_differ_from_store_without_filter"), "delete answers differ between the store and a store without a Bloom filter after the same history", json!({"case": desc, "ops": tail, "key": key, "store": a, "without_filter": b}));
+                }
+                run.ask(rep, m, format!("ts_del {}", hexs(&key)), if a { "ok" } else { "notfound" }, Canon::Raw);
+            }
+            6..=8 => {
+                let a = api_get(target, &key);
+                let b = api_get(twin, &key);
+                let ea = target.exists(&key);
+                let eb = twin.exists(&key);
+                rep.hit(if a == "notfound" { "filter.op.get.notfound" } else { "filter.op.get.found" });
+                if a != b || ea != eb {
+                    let tail = run.tail();
+                    seen.violation(rep, &format!("{site}/reads_differ_from_store_without_filter"), "get / exists answers differ between the store and a store without a Bloom filter after the same history", json!({"case": desc, "ops": tail, "key": key, "store.get": a.chars().take(300).collect::<String>(), "without_filter.get": b.chars().take(300).collect::<String>(), "store.exists": ea, "without_filter.exists": eb}));
+                }
+                run.ask(rep, m, format!("ts_get {}", hexs(&key)), &a, Canon::Data);
+                run.ask(rep, m, format!("ts_exists {}", hexs(&key)), if ea { "1" } else { "0" }, Canon::Raw);
+            }
+            9 if r.chance(1, 3) => {
+                target.clear();
+                twin.clear();
+                rep.hit("filter.op.clear");
+                run.ask(rep, m, "ts_clear".to_string(), "ok", Canon::Raw);
+            }
+            _ => {
+                if let Some((bytes, saved)) = again {
+                    let a = target.restore_from_bytes(bytes);
+                    let b = twin.restore_from_bytes(bytes);
+                    rep.hit("filter.op.restore_again");
+                    if let (Err(e), _) | (_, Err(e)) = (&a, &b) {
+                        seen.violation(rep, "tensor_store.restore_from_bytes/failed", &e.to_string(), desc.clone());
+                    }
+                    run.ask(rep, m, "ts_rfb 1".to_string(), "ok", Canon::Raw);
+                    let tail = run.tail();
+                    loaded_store_oracle(rep, seen, "tensor_store.restore_from_bytes", BLOOM_DENIED, target, saved, pool, &|| json!({"case": desc, "ops": tail}));
+                }
+            }
+        }
+    }
+    let tail = run.tail();
+    twin_oracle(rep, seen, site, target, twin, pool, &|| json!({"case": desc, "ops": tail}));
+    run.ask(rep, m, format!("ts_kv {}", join_or(",", &pool.iter().map(|k| hexs(k)).collect::<Vec<_>>())), &store_kv(target, pool), Canon::Entries);
+}
+
+/// `target.restore_from_bytes(src.snapshot_bytes())` with the target built by `flt`, holding `pre` (of which
+/// `pre_del` deleted again) before; register 0 of the model holds `src` when `live`. Returns whether the
+/// model still follows.
+#[allow(clippy::too_many_arguments)]
+fn restore_into(rep: &mut Report, m: &mut Model, seen: &mut Seen, sc: &mut Scratch, r: &mut Rng, live: bool, stream: &str, src: &TensorStore, flt: Flt, pre: &[(String, TensorData)], pre_del: &[String], clear_first: bool, more: usize, desc: &J) -> bool {
+    let saved = saved_map(src);
+    let bytes = match src.snapshot_bytes() {
+        Ok(b) => b,
+        Err(e) => {
+            seen.violation(rep, "tensor_store.snapshot_bytes/failed", &e.to_string(), desc.clone());
+            return live;
+        }
+    };
+    let target = flt.build(sc);
+    let twin = TensorStore::new();
+    rep.hit(&format!("filter.target.{}", flt.name()));
+    rep.hit(if pre.is_empty() { "filter.target.empty" } else { "filter.target.holds_other_keys" });
+    let mut run = TsRun { live, trace: Vec::new(), stream: stream.to_string() };
+    let desc = json!({"case": desc, "target": flt.name(), "loop": "restore_from_bytes"});
+    run.ask(rep, m, format!("ts_new {}", u8::from(flt != Flt::Plain)), "ok", Canon::Raw);
+    let mut pool: Vec<String> = saved.keys().cloned().collect();
+    for (k, d) in pre {
+        let _ = target.put(k, d.clone());
+        let _ = twin.put(k, d.clone());
+        if !pool.contains(k) {
+            pool.push(k.clone());
+        }
+        run.ask(rep, m, format!("ts_put {} {} 0", hexs(k), enc_data_m(d)), "ok", Canon::Raw);
+    }
+    for k in pre_del {
+        let a = target.delete(k).is_ok();
+        let _ = twin.delete(k);
+        run.ask(rep, m, format!("ts_del {}", hexs(k)), if a { "ok" } else { "notfound" }, Canon::Raw);
+    }
+    if clear_first {
+        target.clear();
+        twin.clear();
+        run.ask(rep, m, "ts_clear".to_string(), "ok", Canon::Raw);
+    }
+    for k in ["never:put", "emb:never", "_cache:never"] {
+        pool.push(k.to_string());
+    }
+    let earlier: Vec<String> = pre.iter().map(|p| p.0.clone()).collect();
+    let a = target.restore_from_bytes(&bytes);
+    let b = twin.restore_from_bytes(&bytes);
+    if let (Err(e), _) | (_, Err(e)) = (&a, &b) {
+        seen.violation(rep, "tensor_store.restore_from_bytes/failed", &e.to_string(), desc.clone());
+        return run.live;
+    }
+    run.ask(rep, m, "ts_rfb 1".to_string(), "ok", Canon::Raw);
+    let tail = run.tail();
+    let clean = loaded_store_oracle(rep, seen, "tensor_store.restore_from_bytes", BLOOM_DENIED, &target, &saved, &earlier, &|| json!({"case": desc, "ops": tail}));
+    rep.hit(if clean { "filter.restore.reads_like_saved" } else { "filter.restore.differs" });
+    twin_oracle(rep, seen, "tensor_store.restore_from_bytes", &target, &twin, &pool, &|| json!({"case": desc, "ops": tail}));
+    run.ask(rep, m, format!("ts_kv {}", join_or(",", &pool.iter().map(|k| hexs(k)).collect::<Vec<_>>())), &store_kv(&target, &pool), Canon::Entries);
+    ts_history(rep, m, seen, r, &mut run, "tensor_store.restore_from_bytes", &target, &twin, Some((&bytes, &saved)), &mut pool, more, &desc);
+    rep.case("filter_restore", Some(&format!("{}|{}", flt.name(), fnv(&format!("{}#{}", saved.len(), run.trace.join(";"))))));
+    run.live
+}
+
+/// a loader on the file `save_snapshot(src)` wrote, then a further history on the loaded store
+#[allow(clippy::too_many_arguments)]
+fn load_into(rep: &mut Report, m: &mut Model, seen: &mut Seen, sc: &mut Scratch, r: &mut Rng, live: bool, stream: &str, src: &TensorStore, file: &Path, loader: Loader, more: usize, desc: &J) -> bool {
+    let saved = saved_map(src);
+    let desc = json!({"case": desc, "loader": loader.name()});
+    let (target, twin) = match (loader.load(file, sc), TensorStore::load_snapshot(file).map_err(|e| e.to_string())) {
+        (Ok(a), Ok(b)) => (a, b),
+        (Err(e), _) | (_, Err(e)) => {
+            seen.violation(rep, &format!("{}/load_failed", loader.site()), &e, desc.clone());
+            return live;
+        }
+    };
+    rep.hit(&format!("filter.loader.{}", loader.name()));
+    if target.has_bloom_filter() != loader.bloom() {
+        seen.violation(rep, &format!("{}/filter_not_built", loader.site()), "has_bloom_filter() of the loaded store is not what the loader promises", desc.clone());
+    }
+    let mut run = TsRun { live, trace: Vec::new(), stream: stream.to_string() };
+    run.ask(rep, m, format!("ts_load 1 {}", u8::from(loader.bloom())), "ok", Canon::Raw);
+    let mut pool: Vec<String> = saved.keys().cloned().collect();
+    for k in ["never:put", "emb:never", "_cache:never"] {
+        pool.push(k.to_string());
+    }
+    let tail = run.tail();
+    let clean = loaded_store_oracle(rep, seen, loader.site(), BLOOM_DENIED_LOAD, &target, &saved, &[], &|| json!({"case": desc, "ops": tail}));
+    rep.hit(if clean { "filter.load.reads_like_saved" } else { "filter.load.differs" });
+    twin_oracle(rep, seen, loader.site(), &target, &twin, &pool, &|| json!({"case": desc, "ops": tail}));
+    run.ask(rep, m, format!("ts_kv {}", join_or(",", &pool.iter().map(|k| hexs(k)).collect::<Vec<_>>())), &store_kv(&target, &pool), Canon::Entries);
+    let bytes = src.snapshot_bytes().ok();
+    ts_history(rep, m, seen, r, &mut run, loader.site(), &target, &twin, bytes.as_deref().map(|b| (b, &saved)), &mut pool, more, &desc);
+    rep.case("filter_load", Some(&format!("{}|{}", loader.name(), fnv(&format!("{}#{}", saved.len(), run.trace.join(";"))))));
+    run.live
+}
+
+fn tdata(fields: &[(&str, TensorValue)]) -> TensorData {
+    let mut d = TensorData::new();
+    for (f, v) in fields {
+        d.set(*f, v.clone());
+    }
+    d
+}
+
+/// a source store from entries, mirrored into register 0 of the model (a fresh pair of registers)
+fn directed_source(rep: &mut Report, m: &mut Model, entries: &[(String, TensorData)]) -> (TensorStore, bool) {
+    let src = TensorStore::new();
+    let mut live = rep.compare("filter.directed", || json!({"line": "rt_new"}), "ok", &m.ask("rt_new 384 10000 10000 67108864"));
+    for (k, d) in entries {
+        let _ = src.put(k, d.clone());
+        let line = format!("rt_put 0 {} {} 0", hexs(k), enc_data_m(d));
+        let ans = m.ask(&line);
+        live &= rep.compare("filter.directed", || json!({"line": line}), "ok", &ans);
+    }
+    (src, live)
+}
+
+/// Directed cases, first on every run and independent of the seed: the regression input of cb3c5db0 on
+/// every constructor that takes a filter, then the shortest histories in which telling the filter is the
+/// only thing between the restore and a denied key.
+fn stream_filter_directed(rep: &mut Report, m: &mut Model, sc: &mut Scratch) {
+    let mut seen = Seen(BTreeMap::new());
+    let mut r = Rng::new(0xC07).fork("filter_directed");
+    let int = |i: i64| TensorValue::Scalar(ScalarValue::Int(i));
+    let restored = vec![("user:restored".to_string(), tdata(&[("n", int(7))]))];
+    // 1. src = TensorStore::new(); src.put("user:restored", v); dst = with_bloom_filter(..); dst.restore_from_bytes(..)
+    for flt in Flt::BLOOMS {
+        let (src, live) = directed_source(rep, m, &restored);
+        restore_into(rep, m, &mut seen, sc, &mut r, live, "filter.directed", &src, flt, &[], &[], false, 0, &json!({"directed": "src.put(user:restored); dst = a new store with a Bloom filter; dst.restore_from_bytes(src.snapshot_bytes())"}));
+    }
+    // 2. the target already holds other keys (one of them the restored key with another value, one deleted again)
+    let pre = vec![
+        ("user:old".to_string(), tdata(&[("old", int(1))])),
+        ("user:restored".to_string(), tdata(&[("old", int(2))])),
+        ("emb:old".to_string(), tdata(&[("old", int(3))])),
+        ("user:gone".to_string(), tdata(&[])),
+    ];
+    for flt in [Flt::Small, Flt::Default, Flt::Tiny] {
+        let (src, live) = directed_source(rep, m, &restored);
+        restore_into(rep, m, &mut seen, sc, &mut r, live, "filter.directed", &src, flt, &pre, &["user:gone".to_string()], false, 0, &json!({"directed": "dst with a Bloom filter holds user:old, user:restored (other value), emb:old and a deleted key before the restore"}));
+    }
+    // 3. keys of every class in the saved store
+    let mut sparse384 = vec![0.0_f32; 384];
+    sparse384[3] = 1.5;
+    sparse384[200] = -2.0;
+    let classes = vec![
+        ("emb:a".to_string(), tdata(&[("_embedding", TensorValue::Vector(sparse384)), ("t", int(1))])),
+        ("emb:short".to_string(), tdata(&[("_embedding", TensorValue::Vector(vec![1.0, 2.0, 3.0]))])),
+        ("node:1".to_string(), tdata(&[("label", TensorValue::Scalar(ScalarValue::String("n".into())))])),
+        ("edge:1".to_string(), tdata(&[("w", TensorValue::Scalar(ScalarValue::Float(0.5)))])),
+        ("table:t:row:1".to_string(), tdata(&[("id", int(1))])),
+        ("_cache:1".to_string(), tdata(&[("c", int(9))])),
+        ("ключ:✓".to_string(), tdata(&[("поле", TensorValue::Scalar(ScalarValue::Bytes(vec![0, 255])))])),
+        ("user:1".to_string(), tdata(&[])),
+        (String::new(), tdata(&[("empty_key", int(0))])),
+    ];
+    for (flt, with_pre) in [(Flt::Small, false), (Flt::Instr, true), (Flt::Durable, true)] {
+        let (src, live) = directed_source(rep, m, &classes);
+        restore_into(rep, m, &mut seen, sc, &mut r, live, "filter.directed", &src, flt, if with_pre { &pre } else { &[] }, &[], false, 0, &json!({"directed": "saved store with a key of every class (emb: with a slab-dimension and a short embedding, node:, edge:, table:, _cache:, non-ASCII, empty key)"}));
+    }
+    // 4. restore, delete a restored key, restore again / clear before the restore / an empty saved store
+    {
+        let (src, live) = directed_source(rep, m, &restored);
+        restore_into(rep, m, &mut seen, sc, &mut r, live, "filter.directed", &src, Flt::Small, &pre, &[], true, 0, &json!({"directed": "dst.put(..); dst.clear() (clears the filter too); dst.restore_from_bytes(..)"}));
+        let (src, live) = directed_source(rep, m, &[]);
+        restore_into(rep, m, &mut seen, sc, &mut r, live, "filter.directed", &src, Flt::Small, &pre, &[], false, 0, &json!({"directed": "an empty saved store into a target that holds keys: every earlier key is gone for scan, get and exists; the filter still holds them"}));
+        let (src, live) = directed_source(rep, m, &restored);
+        let saved = saved_map(&src);
+        let bytes = src.snapshot_bytes().expect("snapshot_bytes");
+        let target = Flt::Small.build(sc);
+        let twin = TensorStore::new();
+        let desc = json!({"directed": "restore; delete(user:restored); get; restore again; get", "target": Flt::Small.name()});
+        let mut run = TsRun { live, trace: Vec::new(), stream: "filter.directed".to_string() };
+        let pool = vec!["user:restored".to_string(), "user:other".to_string()];
+        run.ask(rep, m, "ts_new 1".to_string(), "ok", Canon::Raw);
+        for round in 0..2 {
+            let _ = target.restore_from_bytes(&bytes);
+            let _ = twin.restore_from_bytes(&bytes);
+            run.ask(rep, m, "ts_rfb 1".to_string(), "ok", Canon::Raw);
+            let tail = run.tail();
+            loaded_store_oracle(rep, &mut seen, "tensor_store.restore_from_bytes", BLOOM_DENIED, &target, &saved, &[], &|| json!({"case": desc, "round": round, "ops": tail}));
+            run.ask(rep, m, format!("ts_get {}", hexs("user:restored")), &api_get(&target, "user:restored"), Canon::Data);
+            let a = target.delete("user:restored").is_ok();
+            let _ = twin.delete("user:restored");
+            run.ask(rep, m, format!("ts_del {}", hexs("user:restored")), if a { "ok" } else { "notfound" }, Canon::Raw);
+            run.ask(rep, m, format!("ts_get {}", hexs("user:restored")), &api_get(&target, "user:restored"), Canon::Data);
+            if target.exists("user:restored") || target.get("user:restored").is_ok() {
+                seen.violation(rep, "tensor_store.restore_from_bytes/deleted_key_readable", "a restored key is still readable after delete", json!({"case": desc, "round": round}));
+            }
+            let tail = run.tail();
+            twin_oracle(rep, &mut seen, "tensor_store.restore_from_bytes", &target, &twin, &pool, &|| json!({"case": desc, "round": round, "ops": tail}));
+        }
+        rep.case("filter_restore", Some("directed: restore / delete / restore again"));
+    }
+    // 5. the loaders that build a filter (and their siblings without one) on the file form of the same stores
+    for (what, entries) in [("user:restored only", &restored), ("a key of every class", &classes)] {
+        for loader in [Loader::Bloom, Loader::BloomTiny, Loader::RecoverBloom, Loader::Plain, Loader::Recover] {
+            let (src, live) = directed_source(rep, m, entries);
+            let p = sc.fresh("directed.filter.v3");
+            match src.save_snapshot(&p) {
+                Err(e) => seen.violation(rep, "tensor_store.save_snapshot/save_or_load_failed", &e.to_string(), json!({"directed": what})),
+                Ok(()) => {
+                    load_into(rep, m, &mut seen, sc, &mut r, live, "filter.directed", &src, &p, loader, 0, &json!({"directed": what}));
+                }
+            }
+        }
+    }
+    // 6. a store a filter-building loader returned is itself the target of a restore from ANOTHER store
+    {
+        let (a_src, live) = directed_source(rep, m, &classes);
+        let p = sc.fresh("directed.filter.a.v3");
+        if a_src.save_snapshot(&p).is_ok() {
+            if let (Ok(target), Ok(twin)) = (TensorStore::load_snapshot_with_bloom_filter(&p, 64, 0.01), TensorStore::load_snapshot(&p)) {
+                let desc = json!({"directed": "target = load_snapshot_with_bloom_filter(file of store A); target.restore_from_bytes(bytes of store B)"});
+                let mut run = TsRun { live, trace: Vec::new(), stream: "filter.directed".to_string() };
+                run.ask(rep, m, "ts_load 1 1".to_string(), "ok", Canon::Raw);
+                // register 0 := store B
+                let b_src = TensorStore::new();
+                run.ask(rep, m, "rt_clear 0".to_string(), "ok", Canon::Raw);
+                for (k, d) in &restored {
+                    let _ = b_src.put(k, d.clone());
+                    run.ask(rep, m, format!("rt_put 0 {} {} 0", hexs(k), enc_data_m(d)), "ok", Canon::Raw);
+                }
+                let saved = saved_map(&b_src);
+                let bytes = b_src.snapshot_bytes().expect("snapshot_bytes");
+                let _ = target.restore_from_bytes(&bytes);
+                let _ = twin.restore_from_bytes(&bytes);
+                run.ask(rep, m, "ts_rfb 1".to_string(), "ok", Canon::Raw);
+                let earlier: Vec<String> = classes.iter().map(|c| c.0.clone()).collect();
+                let tail = run.tail();
+                loaded_store_oracle(rep, &mut seen, "tensor_store.restore_from_bytes", BLOOM_DENIED, &target, &saved, &earlier, &|| json!({"case": desc, "ops": tail}));
+                let mut pool = earlier.clone();
+                pool.push("user:restored".to_string());
+                twin_oracle(rep, &mut seen, "tensor_store.restore_from_bytes", &target, &twin, &pool, &|| json!({"case": desc, "ops": tail}));
+                run.ask(rep, m, format!("ts_kv {}", join_or(",", &pool.iter().map(|k| hexs(k)).collect::<Vec<_>>())), &store_kv(&target, &pool), Canon::Entries);
+                rep.case("filter_restore", Some("directed: loaded with a filter, then restored from another store"));
+            }
+        }
+    }
+}
+
 // ------------------------------------------------------------------ main
 
 fn main() {
@@ -3585,6 +4117,7 @@ fn main() {
     let only = std::env::var("CORR_SNAP_ONLY").ok();
     let on = |name: &str| only.as_ref().map_or(true, |o| o.split(',').any(|x| x == name));
     if on("directed") {
+        stream_filter_directed(&mut rep, &mut m, &mut sc);
         stream_directed(&mut rep, &mut m, &mut sc);
     }
     if on("router") {
